@@ -120,24 +120,34 @@ Fixpoint all_some {A} (l : list (option A)) : option (list A) :=
   end.
 (* column kinds: 0 text, 1 int, 2 int list, 3 float, 4 qualities, 5 text = rest of the line (SAM tags),
    6 identifier text (SequenceID) *)
-Definition parse_fld (k : Z) (t : list Z) : option fld :=
+(* [pf] reads the text of a float cell as an exact rational (num, den); it is a PARAMETER: float text is
+   produced by an opaque printer (Python str(float)), see the round-trip hypothesis of C03_parse_serialise_floats *)
+Definition parse_fld_with (pf : list Z -> option (Z * Z)) (k : Z) (t : list Z) : option fld :=
   if k =? 1 then option_map FI (parse_int t)
   else if k =? 2 then match t with [] => Some (FL []) | _ => option_map FL (all_some (map parse_int (split_on 44 t))) end
-  else if k =? 3 then Some (FF t 0 1)
+  else if k =? 3 then match pf t with Some (n, d) => Some (FF t n d) | None => None end
   else if k =? 4 then Some (FQ (map (fun c => c - 33) t))
   else Some (FS t).
-Fixpoint parse_fields (schema : list Z) (fs : list (list Z)) : option row :=
+(* a schema ending in kind 5 takes the rest of the line (SAM optional tags, TABs included) as one text cell;
+   when the line ends before that column (SAM-standard spelling of "no tags": no trailing TAB) the cell is empty *)
+Fixpoint parse_fields_with (pf : list Z -> option (Z * Z)) (schema : list Z) (fs : list (list Z)) : option row :=
   match schema, fs with
   | [], [] => Some []
   | k :: ks, f :: fs' =>
       if (k =? 5) && negb (nonempty ks) then Some [FS (intercalate [9] fs)]
-      else match parse_fld k f, parse_fields ks fs' with
+      else match parse_fld_with pf k f, parse_fields_with pf ks fs' with
            | Some x, Some r => Some (x :: r)
            | _, _ => None
            end
+  | k :: ks, [] => if (k =? 5) && negb (nonempty ks) then Some [FS []] else None
   | _, _ => None
   end.
-Definition parse_line (schema : list Z) (l : list Z) : option row := parse_fields schema (split_on 9 l).
+Definition parse_line_with pf (schema : list Z) (l : list Z) : option row := parse_fields_with pf schema (split_on 9 l).
+(* the instance used by the correspondence: float values are not recomputed from the text (compared loosely) *)
+Definition no_float_value : list Z -> option (Z * Z) := fun _ => Some (0, 1).
+Definition parse_fld := parse_fld_with no_float_value.
+Definition parse_fields := parse_fields_with no_float_value.
+Definition parse_line := parse_line_with no_float_value.
 Definition is_comment (l : list Z) : bool := match l with c :: _ => c =? 35 | [] => false end.
 (* the header is the run of '#' lines at the START of the file; a later '#' line is taken for a record *)
 Fixpoint drop_comments (ls : list (list Z)) : list (list Z) :=
@@ -201,14 +211,15 @@ Definition id_cols_ok (schema : list Z) (rows : list row) : bool :=
                            || existsb (fun r => match nth (Z.to_nat i) r (FS [0]) with FS [] => false | _ => true end) rows)
                  (arange (len schema))
   end.
-Definition parse_raw (f : fmt) (schema : list Z) (file : list Z) : option (list row) :=
+Definition parse_raw_with pf (f : fmt) (schema : list Z) (file : list Z) : option (list row) :=
   match f with
-  | Delim => all_some (map (parse_line schema) (lines file))
+  | Delim => all_some (map (parse_line_with pf schema) (lines file))
   | Vcf | VcfU | VcfL => option_map (map (vcf_shift (-1)))
-             (all_some (map (parse_line schema) (drop_comments (lines file))))
+             (all_some (map (parse_line_with pf schema) (drop_comments (lines file))))
   | Fasta _ => parse_fasta None (lines file)
   | Fastq => let ls := lines file in parse_fastq (length ls) ls
   end.
+Definition parse_raw := parse_raw_with no_float_value.
 Definition delimited (f : fmt) : bool := match f with Fasta _ | Fastq => false | _ => true end.
 Definition parse_file (f : fmt) (schema : list Z) (file : list Z) : option (list row) :=
   match parse_raw f schema file with
@@ -442,6 +453,12 @@ Definition from_data (f : fmt) (rows : list row) : Z * list Z :=
       | None => (1, [])
       end
   end.
+
+(* the lazy write path of a VCF table whose POS column was replaced (lazybnpdataclass.get_buffer): the unmodified
+   columns are the text they were read as (FS cells), the replaced column goes through
+   VCFBuffer.process_field_for_write (+ m_vcf_pos_delta) and get_column, then join_fields = join_columns *)
+Definition from_data_lazy_pos (rows : list row) : list Z :=
+  delim_from_data (map (vcf_shift m_vcf_pos_delta) rows).
 
 (* ---- NpBufferedWriter.write, files._get_buffered_file ---- *)
 Definition has_header (f : fmt) : bool := match f with Delim | Vcf | VcfU | VcfL => true | _ => false end.
